@@ -20,6 +20,11 @@ Reading guide
                       `runFrames` = consecutive frame interrupts.  Requests are `sched_gsmtime()` / `tdma_schedule*()`
                       calls (`FrameNoGexec`, resp. admissible ones that do not schedule the observed item:
                       `FrameTraffic`); `sched_gsmtime()` is never called from inside `sched_gsmtime_execute()`.
+* callbacks         : `Env` (of `Model/TdmaSched.lean`) says what a callback returns and which scheduler calls it makes
+                      from inside `tdma_sched_execute()`.  The statements about sched_gsmtime.c alone hold for every
+                      `Env`; `frames_safe` needs the calls made from inside to be admissible (`EnvOk env`); the composed
+                      statements `event_set_runs_at` / `event_set_runs_in_frame` assume that callbacks make no such calls
+                      (`NoReentry env`, explicit hypothesis).
 * frame arithmetic  : an event for frame `F` is handed over by `sched_gsmtime_execute((F - 2) mod GSM_MAX_FN)` with frame offset
                       `SCHEDULE_AHEAD - SCHEDULE_LATENCY = 1`; the scheduler advances at the end of that interrupt, so
                       the k-th frame of its item set runs in the `tdma_sched_execute()` of frame `F - 1 + k`
@@ -31,7 +36,7 @@ set_option linter.unusedVariables false
 
 namespace OsmoVerif.Props.C08Gsmtime
 open OsmoVerif OsmoVerif.SchedGsmtime
-open OsmoVerif.TdmaSched (Item Sched Fault Env u16 Cb Inv OpOk abs ranCount framesOf markers)
+open OsmoVerif.TdmaSched (Item Sched Fault Env u16 Cb Inv OpOk abs ranCount framesOf markers EnvOk NoReentry)
 open OsmoVerif.Spec.TdmaSched (AItem At)
 
 /-- The constants of the current tree, as the C compiler sees them: 16 event slots, `SCHEDULE_AHEAD = 2`,
@@ -379,8 +384,8 @@ theorem out_of_range_never_fires (env : Env) (st st' : Sys) (ev : Event) (frs : 
     (fun fr hfr => ⟨hno fr hfr, by have := target_lt fr.fn; omega⟩) hrun
   exact ⟨h3, h2⟩
 
-/-- every callback reports success -/
-def env0 : Env := fun _ _ _ _ => 0
+/-- every callback reports success and makes no scheduler call from inside -/
+def env0 : Env := ⟨fun _ _ _ _ => 0, []⟩
 
 /-- an item set of one item -/
 def set1 (id p1 : Nat) : List Item := [⟨.fn id, p1, 0, 0, 0, 0⟩, ⟨.endSet, 0, 0, 0, 0, 0⟩]
@@ -441,17 +446,20 @@ theorem nothing_fires_after_reset (env : Env) : ∀ (ops : List SOp) (st st' : S
 /-- **No fault.**  From a state in which both schedulers are well-formed and every pending event has an
 admissible item set (`Safe`; the state after `sched_gsmtime_init()` and a zeroed TDMA scheduler is one), every
 sequence of frame interrupts with admissible requests runs without an out-of-bounds access or a NULL call, and
-ends in such a state. -/
-theorem frames_safe (env : Env) (frs : List Frame) (st : Sys) (h : Safe env st)
+ends in such a state — also when callbacks schedule from inside `tdma_sched_execute()`, as long as the calls
+they make are admissible (`EnvOk`). -/
+theorem frames_safe (env : Env) (henv : EnvOk env) (frs : List Frame) (st : Sys) (h : Safe env st)
     (hfrs : ∀ fr ∈ frs, FrameSafe env fr) :
     ∃ st' outs, runFrames env st frs = .ok (st', outs) ∧ Safe env st' :=
-  runFrames_safe env frs st h hfrs
+  runFrames_safe env henv frs st h hfrs
 
 theorem init_safe (env : Env) (cur : Nat) (h : cur < 25) : Safe env ⟨init, TdmaSched.init cur⟩ :=
   ⟨init_inv.1, TdmaSched.init_inv env cur h, by intro e he; simp [init] at he⟩
 
 /-- **The set of an event for frame `F` runs from frame `F − SCHEDULE_LATENCY` on** (composition with the TDMA
-scheduler theorems of C08).  `ev` is pending; `x` is an item of the k-th frame of its item set (with the
+scheduler theorems of C08).  Callbacks do not schedule from inside `tdma_sched_execute()` (`NoReentry env`:
+explicit hypothesis of this theorem; the item sets handed over by `sched_gsmtime_execute` in the firmware —
+`rach_sched_set_ul`, `freq_sched_set` — are of that kind).  `ev` is pending; `x` is an item of the k-th frame of its item set (with the
 event's `p3`), distinguishable: pending nowhere in the TDMA scheduler, in no other pending event's set, not
 scheduled by any request of the frames considered (`FrameTraffic`).  Frames `frs1` (in none of which
 `target fn = ev.fn`), then the frame `last` with `target last.fn = ev.fn` (frame `F − 2`), then any frames `frs2`
@@ -459,7 +467,7 @@ scheduled by any request of the frames considered (`FrameTraffic`).  Frames `frs
 exactly one call `c = tdma_schedule_set(1, ev.si, ev.p3)` is made for the event; and unless that call reported
 a bucket overflow (`c.rc = −1`, which `sched_gsmtime_execute` ignores), `x` runs exactly once: in the
 `tdma_sched_execute()` of the k-th frame of `frs2` — frame `F − 1 + k` — and in no other. -/
-theorem event_set_runs_at (env : Env) (st : Sys) (ev : Event) (x : AItem Cb) (k : Nat) (f : List (AItem Cb))
+theorem event_set_runs_at (env : Env) (hne : NoReentry env) (st : Sys) (ev : Event) (x : AItem Cb) (k : Nat) (f : List (AItem Cb))
     (frs1 : List Frame) (last : Frame) (frs2 : List Frame)
     (hsafe : Safe env st) (hev : ev ∈ st.g.active)
     (hfresh : ∀ d, d < 25 → x ∉ abs st.s d)
@@ -475,7 +483,7 @@ theorem event_set_runs_at (env : Env) (st : Sys) (ev : Event) (x : AItem Cb) (k 
       ranCount x o.exec = 0 ∧ o.calls.filter (fun c => c.slot = ev.slot) = [c] ∧ CallFor ev c ∧
       (c.rc ≠ -1 → ∀ j o', outs2[j]? = some o' → ranCount x o'.exec = if j = k then 1 else 0) := by
   -- the run exists
-  obtain ⟨st', outs, hrun, _⟩ := runFrames_safe env (frs1 ++ [last] ++ frs2) st hsafe (by
+  obtain ⟨st', outs, hrun, _⟩ := runFrames_safe env (TdmaSched.noReentry_envOk env hne) (frs1 ++ [last] ++ frs2) st hsafe (by
     intro fr hfr
     simp only [List.mem_append, List.mem_singleton] at hfr
     rcases hfr with (hfr | rfl) | hfr
@@ -492,30 +500,31 @@ theorem event_set_runs_at (env : Env) (st : Sys) (ev : Event) (x : AItem Cb) (k 
   have ht0 : Tracked env x st none (some ev) :=
     ⟨hsafe, ⟨by simp, fun e he => by simpa using List.count_eq_zero.mpr (hfresh e he)⟩,
      fun e he hne => hclean e he (fun hh => hne (by rw [hh]))⟩
-  obtain ⟨t1, ev1, c1⟩ := frames_before env x ev frs1 st st1 outs1 ht0 hev h1 hr1
+  obtain ⟨t1, ev1, c1⟩ := frames_before env hne x ev frs1 st st1 outs1 ht0 hev h1 hr1
   obtain ⟨_, _, m1⟩ := frames_miss env frs1 st st1 outs1 ev hsafe.1 hev
     (fun fr hfr => ⟨(h1 fr hfr).1.noGexec, (h1 fr hfr).2⟩) hr1
   -- the frame in which the event is handed over
   have hdepth' : frameOffset + markers ev.si < 25 := by rw [frameOffset_eq]; exact hdepth
-  obtain ⟨s2, cl2, c2, c, hc1, hc2, hc3⟩ := l1Sync_hit env x st1 st2' last o ev k f t1 hl.1 ev1 hl.2 hdepth' hk hx1
+  obtain ⟨s2, cl2, c2, c, hc1, hc2, hc3⟩ := l1Sync_hit env hne x st1 st2' last o ev k f t1 hl.1 ev1 hl.2 hdepth' hk hx1
     hx0 hl1
   refine ⟨st', outs1, o, outs2, c, ?_, runFrames_length env _ _ _ _ hr1, fun o' ho' => ⟨c1 o' ho', m1 o' ho'⟩, c2, hc1, hc2, ?_⟩
   · rw [hrun, e3, e2, e1, ← hl2b]
   · intro hrc j o' ho'
     have t3 : Tracked env x st2' (some k) none := ⟨s2, hc3 hrc, fun e he _ => cl2 e he⟩
-    exact frames_countdown env x frs2 st2' st' outs2 (some k) t3 h2 hr3 j o' ho' |> fun h => by
+    exact frames_countdown env hne x frs2 st2' st' outs2 (some k) t3 h2 hr3 j o' ho' |> fun h => by
       rw [h]
       apply Spec.TdmaSched.ite_iff
       simp only [Option.some.injEq]
       exact eq_comm
 
 /-- **The same with frame numbers.**  Frames `fn0, fn0 + 1, …` (stepping by one modulo `GSM_MAX_FN`), an event
-for frame `F`, `d = (F − fn0) mod GSM_MAX_FN ≥ 2` frames ahead, pending at the start: the sequence runs without
+for frame `F`, `d = (F − fn0) mod GSM_MAX_FN ≥ 2` frames ahead, pending at the start, callbacks that do not
+schedule from inside (`NoReentry env`): the sequence runs without
 fault, the event is handed over in the interrupt of frame `(F − 2) mod GSM_MAX_FN` (index `d − 2`) by exactly one
 call `c`, and unless `c.rc = −1` the item `x` of the k-th frame of its set runs exactly once: in the
 `tdma_sched_execute()` of the interrupt with index `d − 1 + k` — frame `(F − 1 + k) mod GSM_MAX_FN`, i.e.
 `F − SCHEDULE_LATENCY` for the first frame of the set — in no other. -/
-theorem event_set_runs_in_frame (env : Env) (st : Sys) (ev : Event) (x : AItem Cb) (k : Nat)
+theorem event_set_runs_in_frame (env : Env) (hne : NoReentry env) (st : Sys) (ev : Event) (x : AItem Cb) (k : Nat)
     (f : List (AItem Cb)) (fn0 : Nat) (frs : List Frame)
     (hsafe : Safe env st) (hev : ev ∈ st.g.active)
     (hfresh : ∀ d, d < 25 → x ∉ abs st.s d)
@@ -550,7 +559,7 @@ theorem event_set_runs_in_frame (env : Env) (st : Sys) (ev : Event) (x : AItem C
     rw [hstep n frs[n] (by simp [hn]), target_mod _ (by omega)]
     omega
   obtain ⟨st', outs1, o, outs2, c, hrun, hl1, hb, hc0, hc1, hc2, hc3⟩ :=
-    event_set_runs_at env st ev x k f (frs.take n) frs[n] (frs.drop (n + 1)) hsafe hev hfresh hclean hdepth hk
+    event_set_runs_at env hne st ev x k f (frs.take n) frs[n] (frs.drop (n + 1)) hsafe hev hfresh hclean hdepth hk
       hx1 hx0 htake hlast (fun fr hfr => htr fr (List.mem_of_mem_drop hfr))
   rw [← hsplit] at hrun
   have hl1' : outs1.length = n := by
@@ -625,7 +634,7 @@ def evEx : Event := ⟨15, set2, 105, 9⟩
 def xEx : AItem Cb := ⟨.fn 2, 12, 0, 9, 5⟩
 
 -- the hypotheses of `event_set_runs_in_frame` / `event_set_runs_at` hold for it (k = 1: second frame of the set)
-example : Safe env0 (after [(set2, 105, 9)] 7) ∧ evEx ∈ (after [(set2, 105, 9)] 7).g.active ∧
+example : NoReentry env0 ∧ Safe env0 (after [(set2, 105, 9)] 7) ∧ evEx ∈ (after [(set2, 105, 9)] 7).g.active ∧
     1 + markers evEx.si < 25 ∧ (framesOf evEx.p3 evEx.si)[1]? = some [xEx] ∧ [xEx].count xEx = 1 ∧
     SteppingMod 100 (frames 100 8) ∧ 2 ≤ (evEx.fn + 2715648 - 100) % 2715648 ∧
     (evEx.fn + 2715648 - 100) % 2715648 - 2 < (frames 100 8).length ∧ (∀ fr ∈ frames 100 8, FrameTraffic env0 xEx fr) ∧
